@@ -45,3 +45,12 @@ func (c *Client) VerifSMSetPeriods(checkTimeout, senderReport, receiverReport ti
 // VerifSMKeepAlivePeriod returns the keep-alive period the client currently uses.
 // It must not be called concurrently with requests.
 func (c *Client) VerifSMKeepAlivePeriod() time.Duration { return c.keepAlivePeriod }
+
+// VerifSMUDPKeyEqual reports whether two (address, port) pairs map to the same key of the
+// server's UDP client table (clientAddr.fill + array equality).
+func VerifSMUDPKeyEqual(ip1 []byte, port1 int, ip2 []byte, port2 int) bool {
+	var a, b clientAddr
+	a.fill(ip1, port1)
+	b.fill(ip2, port2)
+	return a == b
+}
